@@ -121,7 +121,11 @@ func filterBatch(ctx stick.Context, val stick.Value, args ...stick.Value) stick.
 // character capitalized.
 func filterCapitalize(ctx stick.Context, val stick.Value, args ...stick.Value) stick.Value {
 	s := stick.CoerceString(val)
-	return strings.ToUpper(s[:1]) + s[1:]
+	if s == "" {
+		return s
+	}
+	_, size := utf8.DecodeRuneInString(s)
+	return strings.ToUpper(s[:size]) + s[size:]
 }
 
 func filterConvertEncoding(ctx stick.Context, val stick.Value, args ...stick.Value) stick.Value {
@@ -241,7 +245,10 @@ func filterDefault(ctx stick.Context, val stick.Value, args ...stick.Value) stic
 
 func filterFirst(ctx stick.Context, val stick.Value, args ...stick.Value) stick.Value {
 	if stick.IsArray(val) {
-		arr := reflect.ValueOf(val)
+		arr := reflect.Indirect(reflect.ValueOf(val))
+		if arr.Len() == 0 {
+			return nil
+		}
 		return arr.Index(0).Interface()
 	}
 
@@ -319,7 +326,10 @@ func filterKeys(ctx stick.Context, val stick.Value, args ...stick.Value) stick.V
 
 func filterLast(ctx stick.Context, val stick.Value, args ...stick.Value) stick.Value {
 	if stick.IsArray(val) {
-		arr := reflect.ValueOf(val)
+		arr := reflect.Indirect(reflect.ValueOf(val))
+		if arr.Len() == 0 {
+			return nil
+		}
 		return arr.Index(arr.Len() - 1).Interface()
 	}
 
@@ -363,6 +373,9 @@ func filterMerge(ctx stick.Context, val stick.Value, args ...stick.Value) stick.
 	outMap, isObject := val.(map[string]stick.Value)
 
 	if isObject {
+		if outMap == nil {
+			outMap = make(map[string]stick.Value)
+		}
 		argMap, ok := args[0].(map[string]stick.Value)
 
 		if ok {
@@ -427,7 +440,7 @@ func filterReplace(ctx stick.Context, val stick.Value, args ...stick.Value) stic
 
 func filterReverse(ctx stick.Context, val stick.Value, args ...stick.Value) stick.Value {
 	if stick.IsArray(val) {
-		arr := reflect.ValueOf(val)
+		arr := reflect.Indirect(reflect.ValueOf(val))
 		res := make([]interface{}, 0)
 		for i := arr.Len() - 1; i >= 0; i-- {
 			res = append(res, arr.Index(i).Interface())
